@@ -44,6 +44,33 @@ pub unsafe extern "C" fn mlock(addr: *const libc::c_void, len: libc::size_t) -> 
     libc::syscall(libc::SYS_mlock, addr, len) as libc::c_int
 }
 
+// mprotect, interposed: passes through; when armed (C15's "mprotect reports failure" leg) the
+// k-th and later requests for PROT_READ|PROT_WRITE are carried out but REPORTED as refused
+// (EACCES) — a policy layer may fail the call although the pages are writable; what is released
+// must be wiped all the same.
+static MPROT_RW_CALLS: AtomicU64 = AtomicU64::new(0);
+static MPROT_FAIL_FROM: AtomicI64 = AtomicI64::new(0);
+pub static MPROT_LEG: std::sync::atomic::AtomicBool = std::sync::atomic::AtomicBool::new(false);
+
+#[no_mangle]
+pub unsafe extern "C" fn mprotect(addr: *mut libc::c_void, len: libc::size_t, prot: libc::c_int) -> libc::c_int {
+    let rc = libc::syscall(libc::SYS_mprotect, addr, len, prot) as libc::c_int;
+    if prot == (libc::PROT_READ | libc::PROT_WRITE) {
+        let n = MPROT_RW_CALLS.fetch_add(1, Ordering::SeqCst) + 1;
+        let k = MPROT_FAIL_FROM.load(Ordering::SeqCst);
+        if k > 0 && n as i64 >= k && rc == 0 {
+            *libc::__errno_location() = libc::EACCES;
+            return -1;
+        }
+    }
+    rc
+}
+
+fn arm_mprotect(k: i64) {
+    MPROT_RW_CALLS.store(0, Ordering::SeqCst);
+    MPROT_FAIL_FROM.store(k, Ordering::SeqCst);
+}
+
 fn arm_mlock(k: i64) {
     MLOCK_CALLS.store(0, Ordering::SeqCst);
     MLOCK_REFUSED.store(0, Ordering::SeqCst);
@@ -372,6 +399,10 @@ pub enum Op {
     DropUnwind(u8),
     /// `slots[d].clone_from(&slots[1 - d])`: both handles live and of the same type-state
     CloneFrom(u8),
+    /// `MutBytes::copy_from_slice` with a source of another length (len + delta): documented to
+    /// require equal lengths; whatever it does (panic, error), the region must stay what its
+    /// type says
+    CopyFromOtherLen(u8, i32),
 }
 
 #[derive(Clone, Debug, PartialEq, Eq)]
@@ -490,6 +521,9 @@ impl<A: PmCont> World<A> {
                 if A::fixed().is_none() {
                     for &n in resize_targets {
                         v.push(Op::Resize(s, n));
+                    }
+                    if !with_raw {
+                        v.push(Op::CopyFromOtherLen(s, 1));
                     }
                 }
                 v.push(Op::Write(s, 3));
@@ -639,6 +673,37 @@ impl<A: PmCont> World<A> {
                         self.slots[t] = Some(h2);
                         self.model[t] = None;
                         self.sync_model(t, Some(content));
+                        Outcome::Ok
+                    }
+                }
+            }
+            Op::CopyFromOtherLen(s, delta) => {
+                let s = s as usize;
+                let Some(h) = self.slots[s].as_mut() else { return Outcome::Skipped };
+                let cur = self.model[s].as_ref().map(|m| m.content.len()).unwrap_or(0) as i64;
+                let n = (cur + delta as i64).max(0) as usize;
+                let src = pattern(n, 0x55);
+                let r = guarded(AssertUnwindSafe(|| match h {
+                    Hd::Raw(a) => {
+                        a.copy_from_slice(&src);
+                        true
+                    }
+                    Hd::LRW(p) => {
+                        p.copy_from_slice(&src);
+                        true
+                    }
+                    Hd::URW(p) => {
+                        p.copy_from_slice(&src);
+                        true
+                    }
+                    _ => false,
+                }));
+                match r {
+                    Err(p) => Outcome::Panic(p),
+                    Ok(false) => Outcome::Skipped,
+                    Ok(true) => {
+                        // accepted: the container now holds the source
+                        self.sync_model(s, Some(src));
                         Outcome::Ok
                     }
                 }
@@ -1040,7 +1105,7 @@ impl Explorer {
             self.fails.push(json!({
                 "signature": sig,
                 "what": format!("{} len {} after {:?}{}: {}", self.cname, self.base_len, ops, if k > 0 { format!(" with mlock refused from call {}", k) } else { String::new() }, detail),
-                "case": {"bin": "mcn", "container": self.cname, "base_len": self.base_len, "mode": format!("{:?}", self.mode), "mlockall": MLOCKALL.load(Ordering::SeqCst), "ops": ops, "fail_from": k, "resize_targets": self.resize_targets},
+                "case": {"bin": "mcn", "container": self.cname, "base_len": self.base_len, "mode": format!("{:?}", self.mode), "mlockall": MLOCKALL.load(Ordering::SeqCst), "mprotfail": MPROT_LEG.load(Ordering::SeqCst), "ops": ops, "fail_from": k, "resize_targets": self.resize_targets},
             }));
         }
     }
@@ -1061,7 +1126,12 @@ impl Explorer {
         }
         let log = Rc::new(RefCell::new(AllocLog::default()));
         install_observer(log.clone());
-        arm_mlock(fail_from);
+        if MPROT_LEG.load(Ordering::SeqCst) {
+            arm_mlock(0);
+            arm_mprotect(fail_from);
+        } else {
+            arm_mlock(fail_from);
+        }
         let mut w: World<A> = World::new(self.base_len);
         let mut viols: Vec<Viol> = vec![];
         let mut last_outcome = Outcome::Ok;
@@ -1121,6 +1191,8 @@ impl Explorer {
         w.drop_all();
         dryoc::protected::verif::set_alloc_observer(None);
         arm_mlock(0);
+        let mprot_calls = MPROT_RW_CALLS.load(Ordering::SeqCst);
+        arm_mprotect(0);
         let l = log.borrow();
         if self.mode != Mode::Release {
             check_final(&l, self.base_lck, &mut viols);
@@ -1147,6 +1219,7 @@ impl Explorer {
         if lck != self.base_lck {
             self.base_lck = lck;
         }
+        let mlock_calls = if MPROT_LEG.load(Ordering::SeqCst) { mprot_calls } else { mlock_calls };
         ExecResult { enabled, mlock_calls }
     }
 
@@ -1156,7 +1229,7 @@ impl Explorer {
         if !prefix.is_empty() {
             self.transitions += 1;
         }
-        if self.mode == Mode::Fault && !prefix.is_empty() {
+        if (self.mode == Mode::Fault || (self.mode == Mode::Release && MPROT_LEG.load(Ordering::SeqCst))) && !prefix.is_empty() {
             for k in 1..=(res.mlock_calls as i64 + 1) {
                 self.execute::<A>(prefix, k, true);
                 self.transitions += prefix.len() as u64;
@@ -1202,6 +1275,7 @@ fn op_name(op: &Op) -> String {
         Op::Zero(_) => "Zero".into(),
         Op::DropUnwind(_) => "DropUnwind".into(),
         Op::CloneFrom(_) => "CloneFrom".into(),
+        Op::CopyFromOtherLen(_, _) => "CopyFromOtherLen".into(),
     }
 }
 fn outcome_name(o: &Outcome) -> &'static str {
@@ -1399,9 +1473,12 @@ pub fn worker(args: &[String]) -> i32 {
     // args: mode container len depth probe_depth
     let mode = match args[0].as_str() {
         "kernel" => Mode::Kernel,
-        "release" | "release-mlockall" => Mode::Release,
+        "release" | "release-mlockall" | "release-mprotfail" => Mode::Release,
         _ => Mode::Fault,
     };
+    if args[0] == "release-mprotfail" {
+        MPROT_LEG.store(true, Ordering::SeqCst);
+    }
     if args[0] == "release-mlockall" {
         // environment variant: the whole process runs with every current and future page locked
         // (a service hardened with mlockall); what is released must still be zero
@@ -1576,6 +1653,19 @@ pub fn run_c15() -> i32 {
     if let Some(u) = keep {
         ctx.note("units", u);
     }
+    // environment variant: mprotect(PROT_READ|PROT_WRITE) is carried out but reported as refused
+    // from the k-th request on, for every k (release paths that make wiping depend on that
+    // call's verdict)
+    let mp_units = units_for(&[1, 64, PAGE + 1], &[64]);
+    let mdepth = ctx.tier.pick(3usize, 4);
+    let res = spawn_units("release-mprotfail", &mp_units, mdepth, 0);
+    let keep2 = ctx.notes.remove("units");
+    absorb_units(&mut ctx, "C15", res, &mp_units);
+    ctx.notes.remove("units");
+    if let Some(u) = keep2 {
+        ctx.note("units", u);
+    }
+    ctx.note("mprotect_reports_failure_environment", json!({"depth": mdepth, "units": mp_units.iter().map(|u| format!("{} len {}", u.cont, u.len)).collect::<Vec<_>>(), "fault": "k-th and later mprotect(PROT_READ|PROT_WRITE) requests are performed but return -1/EACCES, for every k"}));
     ctx.note("mlockall_environment", json!({"depth": edepth, "units": env_units.iter().map(|u| format!("{} len {}", u.cont, u.len)).collect::<Vec<_>>(), "skipped": skipped}));
     ctx.note("depth", json!(depth));
     ctx.require_outcome("Resize:ok");
@@ -1609,7 +1699,7 @@ pub fn replay(case: &Value) -> Option<String> {
     }
     let mode = match case["mode"].as_str().unwrap_or("Kernel") {
         "Kernel" => "kernel",
-        "Release" => if case["mlockall"] == true { "release-mlockall" } else { "release" },
+        "Release" => if case["mlockall"] == true { "release-mlockall" } else if case["mprotfail"] == true { "release-mprotfail" } else { "release" },
         _ => "fault",
     };
     let arg = json!({"ops": case["ops"], "fail_from": case["fail_from"]}).to_string();
